@@ -127,13 +127,26 @@ def run(chk):
                            f"something that is not an inventory Header", where=f"{f.module.relpath}:{n.lineno}", instance=ast.unparse(n))
     chk.floor("hash() call sites", n_hash, 2)
     enc = src.func("eko.io.inventory.encode")
-    txt = ast.unparse(enc.node)
-    chk.decide("byteorder=ENDIANNESS" in txt and "sys.byteorder" not in txt and "NBYTES" in txt, "archive-names-are-process-independent", enc.qname,
-               "the encoding of the hash no longer uses the module constants NBYTES / ENDIANNESS", where=enc.where, instance="encoding")
-    inv = src.module("eko.io.inventory")
-    chk.decide(isinstance(inv.consts.get("ENDIANNESS"), ast.Constant) and isinstance(inv.consts.get("NBYTES"), ast.Constant),
-               "archive-names-are-process-independent", "eko.io.inventory.ENDIANNESS", "NBYTES/ENDIANNESS are not literal constants",
-               where=inv.relpath, instance="constants")
+    # the bytes of the hash: length and byte order of every int.to_bytes() in the encoder must evaluate to literals of the source
+    # (not to the machine's byte order or word size)
+    from ..pe import PE, Env, PEError
+
+    pe_ = PE(src)
+    tb = [n for n in ast.walk(enc.node) if isinstance(n, ast.Call) and isinstance(n.func, ast.Attribute) and n.func.attr == "to_bytes"]
+    chk.need(tb, "eko.io.inventory.encode no longer converts the hash with int.to_bytes: anchor changed")
+    for c in tb:
+        args = {"length": c.args[0] if c.args else None, "byteorder": c.args[1] if len(c.args) > 1 else None}
+        args.update({k.arg: k.value for k in c.keywords})
+        vals = {}
+        for k, v in args.items():
+            try:
+                vals[k] = pe_.eval(v, Env(enc.module)) if v is not None else None
+            except Exception as e:  # not a value of the source (sys.byteorder, struct.calcsize, ...)
+                vals[k] = f"<{type(e).__name__}>"
+        chk.decide(isinstance(vals.get("length"), int) and vals.get("byteorder") in ("little", "big"), "archive-names-are-process-independent", enc.qname,
+                   f"`{ast.unparse(c)[:70]}` is evaluated with length={vals.get('length')!r}, byteorder={vals.get('byteorder')!r}: both must be "
+                   f"literal values of the source, otherwise the same header gets different file names on different machines",
+                   where=f"{enc.module.relpath}:{c.lineno}", instance="encoding", how="PE of the call's arguments")
     # ---- (3) clocks and randomness ----------------------------------------------------------------------------------------------
     n_nd = 0
     for f in funcs:
